@@ -1,5 +1,5 @@
 """Check driver: source extraction, function verification against a contract, discharge, evidence, exit codes."""
-import ast, hashlib, json, os, sys, time, traceback
+import ast, hashlib, json, os, re, sys, time, traceback
 import z3
 from .smt import check_sat, NONE
 from .types import *       # noqa
@@ -344,6 +344,18 @@ class Run:
         try:
             f = run_isolated(module, func)
         except Exception as e:         # noqa
+            text = str(e)
+            files = re.findall(r'File "([^"]+)", line \d+', text)
+            last = files[-1] if files else ""
+            if last and (last.startswith(REPO.rstrip("/") + "/") or "/genlab_" in last):
+                # the corpus died inside the generator or while importing / running the generated library: a concrete failing input
+                tail = text.strip().splitlines()[-1][:300] if text.strip() else ""
+                unexplained = [{"what": "the scenario corpus crashed inside the generator or the generated library", "where": last, "error": tail}]
+                self.bounded.append({"what": what or f"native scenario corpus {module}.{func}", "cases": 0, "failures": 1, "unexplained": unexplained})
+                self.results.append(Result(group, "open", "native", 0.0, "bounded", detail=json.dumps(unexplained)[:1500], group=group))
+                self._native_unexplained = unexplained
+                self.notes.append(f"native stand-in {module}.{func} crashed in code under test: {text[-1200:]}")
+                return None
             self.notes.append(f"native stand-in {module}.{func} crashed: {e!r}"[:1500])
             self.unsupported.append(f"native stand-in {module}.{func} crashed")
             return None
